@@ -541,6 +541,12 @@ func stripOAIGen(opts *FlattenOpts) (bool, error) {
 			continue
 		}
 
+		if hasParentInside(r) {
+			// a definition which refers to itself cannot be merged back into one of its own parts:
+			// this would build a schema that contains itself
+			continue
+		}
+
 		hasReplacedWithComplex, err := stripOAIGenForRef(opts, k, r)
 		if err != nil {
 			return replacedWithComplex, err
@@ -553,6 +559,17 @@ func stripOAIGen(opts *FlattenOpts) (bool, error) {
 	opts.Spec.reload() // re-analyze
 
 	return replacedWithComplex, nil
+}
+
+// hasParentInside tells whether one of the referers to this definition is located inside the definition itself
+func hasParentInside(r *newRef) bool {
+	for _, parent := range r.parents {
+		if strings.HasPrefix(parent, r.path+"/") {
+			return true
+		}
+	}
+
+	return false
 }
 
 // updateRefParents updates all parents of an updated $ref
